@@ -6,7 +6,7 @@
    Part 1: definitions, a single transfer, the ballot loop. *)
 From Coq Require Import ZArith List Bool String Lia ZifyBool Permutation.
 From Droop Require Import Model.KernelBase Model.Str Model.Arith Model.Prelude Model.State Model.Prims
-  Proofs.Zlike Proofs.Gregory Proofs.Status Proofs.SortLemmas.
+  Model.RulesGregory Proofs.Zlike Proofs.Gregory Proofs.Status Proofs.SortLemmas Proofs.Forward Proofs.ForwardOps.
 Import ListNotations.
 Open Scope Z_scope.
 
@@ -668,6 +668,308 @@ Proof.
       * rewrite Eq. exact (g_quota _ _ G).
       * rewrite Eq. pose proof (g_total _ _ G). lia.
     + unfold set_vote, upd. cbn [actions set_cands]. rewrite Ea. exact H.
+Qed.
+
+
+(* ---------- tie-breakers only log ---------- *)
+Definition bt_logs (bt : list cand -> est -> est * option Z) : Prop :=
+  forall tied s, fst (bt tied s) = s \/ (exists t m, fst (bt tied s) = log_action A cfg t m s) \/
+                 (exists e, fst (bt tied s) = set_crash s e /\ snd (bt tied s) = None).
+Lemma bt_simple_logs reason : bt_logs (bt_simple A cfg reason).
+Proof.
+  intros tied s. unfold bt_simple, break_tie. destruct tied as [|c [|c2 t]]; cbn [fst snd].
+  - right; right. eexists; split; reflexivity.
+  - left; reflexivity.
+  - destruct (by_tie A (c :: c2 :: t)); cbn [fst snd]; [right; right; eexists; split; reflexivity|right; left; eexists; eexists; reflexivity].
+Qed.
+Lemma scot_bt_logs isd reason : bt_logs (scot_break_tie A cfg isd reason).
+Proof.
+  intros tied s. unfold scot_break_tie. destruct tied as [|c [|c2 t]]; cbn [fst snd].
+  - right; right. eexists; split; reflexivity.
+  - left; reflexivity.
+  - cbv zeta. destruct (scot_search A _ _ _); cbn [fst snd]; [right; left; eexists; eexists; reflexivity|].
+    destruct (by_tie A (c :: c2 :: t)); cbn [fst snd]; [right; right; eexists; split; reflexivity|right; left; eexists; eexists; reflexivity].
+Qed.
+
+Lemma bt_frame bt tied (s : est) : bt_logs bt -> GH s ->
+  GH (fst (bt tied s)) /\ cands (fst (bt tied s)) = cands s /\ ballots (fst (bt tied s)) = ballots s /\
+  quota (fst (bt tied s)) = quota s /\ (snd (bt tied s) <> None -> crashed (fst (bt tied s)) = crashed s).
+Proof.
+  intros Hb H. destruct (Hb tied s) as [E|[(t & m & E)|(e & E & En)]]; rewrite E.
+  - split; [exact H|]. split; [reflexivity|]. split; [reflexivity|]. split; [reflexivity|]. intros _; reflexivity.
+  - split; [apply gh_log; exact H|]. split; [apply cands_log|]. split; [apply ballots_log|]. split; [apply quota_log|]. intros _; apply crashed_log.
+  - split; [apply (gh_same s); try reflexivity; exact H|]. split; [reflexivity|]. split; [reflexivity|]. split; [reflexivity|]. intros Hn. congruence.
+Qed.
+
+
+(* ---------- unpend of a pending candidate, spelled out ---------- *)
+Lemma unpend_pending h m (s1 : est) c : NoDup (map (@cid A) (cands s1)) -> In c (cands s1) -> cid c = h -> is_pending A c = true ->
+  let s2 := unpend A cfg h m s1 in
+  cands s2 = upd_cand A h (fun c0 => with_st c0 Elected (Some false)) (cands s1) /\ ballots s2 = ballots s1 /\
+  quota s2 = quota s1 /\ crashed s2 = crashed s1.
+Proof.
+  intros Hnd Hin Hid Hp. cbv zeta. unfold unpend. rewrite <- Hid, (find_of_in _ _ Hnd Hin), Hp.
+  destruct m; [rewrite cands_log, ballots_log, quota_log, crashed_log|]; repeat split; reflexivity.
+Qed.
+
+Lemma pending_in (s : est) c : In c (pendings A s) -> In c (cands s) /\ is_pending A c = true.
+Proof. unfold pendings. intros H. apply filter_In in H. exact H. Qed.
+
+Lemma pending_cont (c : cand) : is_pending A c = true -> cont c = true.
+Proof. intros H. unfold cont. rewrite H. apply orb_true_r. Qed.
+
+Lemma hopeful_not_elected (c : cand) st p : is_hopeful A (with_st c st p) = true -> st = Hopeful.
+Proof. unfold is_hopeful, in_state. cbn [cst with_st]. destruct st; cbn; congruence. Qed.
+
+Lemma gh_transfer_high bt rew (s : est) : bt_logs bt -> bt_ok A bt -> rew_ok rew ->
+  GH s -> crashed s = false -> crashed (transfer_high_surplus A cfg bt rew s) = false ->
+  GH (transfer_high_surplus A cfg bt rew s).
+Proof.
+  intros Hbl Hbo Hrew H Hc Hcf. unfold transfer_high_surplus in *.
+  destruct (max_vote A (pendings A s)) as [hv|]; [|rewrite sticky_set_crash in Hcf; discriminate].
+  cbv zeta in *. set (highs := filter (fun c => eqv A (cvote c) hv) (pendings A s)) in *.
+  destruct (bt_frame bt highs s Hbl H) as (H1 & Ec1 & Eb1 & Eq1 & Ecr1).
+  destruct (Hbo highs s) as (_ & _ & Hmem).
+  destruct (bt highs s) as [s1 [h|]] eqn:Ebt; cbn [fst snd] in *; [|exact H1].
+  destruct (Hmem h eq_refl) as (c & Hch & Hid). unfold highs in Hch. apply filter_In in Hch. destruct Hch as [Hcp _].
+  destruct (pending_in s c Hcp) as [Hcin Hpend].
+  pose proof (g_nd _ _ (proj1 H)) as Hnd.
+  assert (Hnd1: NoDup (map (@cid A) (cands s1))) by (rewrite Ec1; exact Hnd).
+  assert (Hcin1: In c (cands s1)) by (rewrite Ec1; exact Hcin).
+  assert (Hc1: crashed s1 = false) by (rewrite Ecr1; [exact Hc|discriminate]).
+  destruct (unpend_pending h (Some "Transfer high surplus"%string) s1 c Hnd1 Hcin1 Hid Hpend) as (Ec2 & Eb2 & Eq2 & Ecr2).
+  set (s2 := unpend A cfg h (Some "Transfer high surplus"%string) s1) in *.
+  assert (H2: GH s2) by (apply gh_unpend; exact H1).
+  assert (Hc2: crashed s2 = false) by (rewrite Ecr2; exact Hc1).
+  rewrite Hc2 in *.
+  set (ch := with_st c Elected (Some false)).
+  assert (Hchin: In ch (cands s2)).
+  { rewrite Ec2. unfold upd_cand. apply in_map_iff. exists c. split; [|exact Hcin1]. rewrite Hid, Z.eqb_refl. reflexivity. }
+  pose proof (gh_surplus_core (is_hopeful A) rew h s2 ch Hrew (fun _ _ => eq_refl) H2 Hc2) as Hcore.
+  cbv zeta in Hcore.
+  match type of Hcore with _ -> _ -> _ -> _ -> _ -> _ -> _ -> crashed ?x = false -> _ => set (s3 := x) in * end.
+  destruct (crashed s3) eqn:Hc3; [cbv iota in Hcf; congruence|].
+  destruct Hcore as [H4 Hc4]; try reflexivity; try assumption.
+  - intros c' Hc' Hk. rewrite Ec2 in Hc'. destruct (in_upd_cand' _ _ _ _ Hc') as (c0 & Hc0 & [[Ei ->]|[Ei ->]]).
+    + apply hopeful_not_elected in Hk. discriminate.
+    + split; [apply hopeful_cont; exact Hk|exact Ei].
+  - discriminate.
+  - rewrite Eq2, Eq1. exact (g_pend _ _ (proj1 H) c Hcin Hpend).
+  - rewrite Eb2, Eb1. cbn [cvote ch with_st]. destruct (g_tally _ _ (proj1 H) c Hcin) as [El|[Er _]]; [rewrite <- Hid; exact El|].
+    rewrite (pending_cont c Hpend) in Er. discriminate.
+  - apply gh_log. exact H4.
+Qed.
+
+
+(* ---------- exclusion: ballots pass on at unchanged weight ---------- *)
+Lemma transfer_as_gen keep (s : est) (b : ballot) : transfer A keep s b = f_gen keep (fun _ b => Ok (bweight b)) s b.
+Proof. unfold f_gen. destruct b; reflexivity. Qed.
+Lemma pb_ext f g sel : (forall (s : est) (b : ballot), f s b = g s b) ->
+  forall bs s acc, process_ballots A f sel bs s acc = process_ballots A g sel bs s acc.
+Proof.
+  intros H. induction bs as [|b t IH]; intros s acc; cbn [process_ballots]; [reflexivity|].
+  destruct (crashed s); [reflexivity|]. destruct (sel b); [|apply IH]. rewrite H. destruct (g s b). apply IH.
+Qed.
+Lemma for_ballots_ext f g sel (s : est) : (forall (s : est) (b : ballot), f s b = g s b) -> for_ballots A f sel s = for_ballots A g sel s.
+Proof. intros H. unfold for_ballots. rewrite (pb_ext f g sel H). reflexivity. Qed.
+
+Lemma crashed_transfer keep (s : est) b : crashed (fst (transfer A keep s b)) = crashed s.
+Proof.
+  pose proof (transfer_spec keep s b) as H. cbv zeta in H. destruct H as (_ & _ & _ & [(c & cc & _ & _ & _ & E)|(_ & E)]); rewrite E; reflexivity.
+Qed.
+Lemma crashed_pb_plain keep sel bs : forall (s : est) acc, crashed (fst (process_ballots A (transfer A keep) sel bs s acc)) = crashed s.
+Proof.
+  induction bs as [|b t IH]; intros s acc; cbn [process_ballots]; [reflexivity|].
+  destruct (crashed s) eqn:C; [exact C|]. destruct (sel b); [|rewrite IH; exact C].
+  destruct (transfer A keep s b) as [s1 b1] eqn:E. rewrite IH. pose proof (crashed_transfer keep s b) as H. rewrite E in H. cbn in H. rewrite H. exact C.
+Qed.
+Lemma crashed_for_ballots_plain keep sel (s : est) : crashed (for_ballots A (transfer A keep) sel s) = crashed s.
+Proof.
+  unfold for_ballots. pose proof (crashed_pb_plain keep sel (ballots s) s []) as H.
+  destruct (process_ballots A (transfer A keep) sel (ballots s) s []) as [s1 bs1]. exact H.
+Qed.
+
+Lemma move_plain keep src (Q : est -> Prop) (s : est) :
+  (forall c x, keep (with_vote c x) = keep c) ->
+  (forall s c x, Q s -> src c = false -> Q (add_vote A c x s)) ->
+  (forall s x, Q s -> Q (set_exhausted s x)) ->
+  (forall s bs, Q s -> Q (set_ballots s bs)) ->
+  Good B s -> crashed s = false -> Q s ->
+  (forall c, In c (cands s) -> keep c = true -> cont c = true /\ src (cid c) = false) ->
+  let s' := for_ballots A (transfer A keep) (selS src) s in
+  LI keep src (R (quota s)) s' (ballots s') /\ Q s' /\ samef s s' /\ Forall (fun b => selS src b = false) (ballots s') /\
+  exists mn, total s' = total s + mn /\ 0 <= mn /\ mn <= selsum src (ballots s).
+Proof.
+  intros Hkv HQa HQe HQb G Hc HQ Hk s'.
+  assert (Hc': crashed s' = false) by (unfold s'; rewrite crashed_for_ballots_plain; exact Hc).
+  unfold s' in *. rewrite (for_ballots_ext _ _ _ s (transfer_as_gen keep)) in *.
+  destruct (move keep src (fun _ b => Ok (bweight b)) 1 1 Q s Hkv HQa HQe HQb) as (HL & HQ' & Hsf & Hall & mn & Hm1 & Hm2 & Hm3 & _); try assumption.
+  - intros s0 b w _ [Hw _] E. inversion E; subst. lia.
+  - split; [exact HL|]. split; [exact HQ'|]. split; [exact Hsf|]. split; [exact Hall|]. exists mn. lia.
+Qed.
+
+Lemma gh_excl_one keep i (s : est) ci :
+  (forall c x, keep (with_vote c x) = keep c) ->
+  GH s -> crashed s = false ->
+  (forall c, In c (cands s) -> keep c = true -> cont c = true /\ cid c <> i) ->
+  In ci (cands s) -> cid ci = i -> cst ci <> Withdrawn -> is_pending A ci = false ->
+  let s1 := for_ballots A (transfer A keep) (top_is A i) s in
+  GH (set_vote A i (V0 A) s1) /\ crashed (set_vote A i (V0 A) s1) = false.
+Proof.
+  intros Hkv [G H] Hc Hk Hin Hid Hnw Hnp s1.
+  set (Q := fun s : est => In ci (cands s)).
+  assert (Hmv := move_plain keep (fun c => c =? i) Q s Hkv). cbv zeta in Hmv.
+  change (for_ballots A (transfer A keep) (selS (fun c => c =? i)) s) with s1 in Hmv.
+  destruct Hmv as (HL & HQ1 & Hsf & Hall & mn & Hm1 & Hm2 & Hm3); try assumption.
+  - intros s0 c x Q1 Hsrc. unfold Q, add_vote, upd. cbn [cands set_cands]. apply in_other_upd; [exact Q1|]. intros E. rewrite Hid in E. subst c. rewrite Z.eqb_refl in Hsrc. discriminate.
+  - intros s0 x HQ. exact HQ.
+  - intros s0 bs HQ. exact HQ.
+  - intros c Hcin Hkc. destruct (Hk c Hcin Hkc) as [H1 H2]. split; [exact H1|]. destruct (cid c =? i) eqn:E; [lia|reflexivity].
+  - destruct Hsf as (Eq & Ea & _).
+    assert (Hsel: selsum (fun c => c =? i) (ballots s) = stand (ballots s) i) by (apply selsum_single; reflexivity).
+    assert (Hge: stand (ballots s) i <= R (cvote ci)).
+    { destruct (g_tally _ _ G ci Hin) as [El|[_ Er]]; rewrite Hid in *; [lia|]. rewrite Er. exact (g_nonneg _ _ G ci Hin). }
+    assert (HV0: R (V0 A) = 0) by (unfold V0; rewrite (r_of_int A S ZL); lia).
+    split; [split|].
+    + apply (good_finish_single keep i (V0 A) s s1 ci); try assumption.
+      * exact (g_quota _ _ G).
+      * left; exact HV0.
+      * lia.
+      * pose proof (g_total _ _ G). lia.
+    + unfold set_vote, upd. cbn [actions set_cands]. rewrite Ea. exact H.
+    + change (crashed s1 = false). unfold s1. rewrite crashed_for_ballots_plain. exact Hc.
+Qed.
+
+
+(* ---------- statuses are untouched by ballot transfers ---------- *)
+Notation stl := (stl A).
+Notation Sat := (Sat A).
+Lemma stl_transfer keep (s : est) b : stl (cands (fst (transfer A keep s b))) = stl (cands s).
+Proof.
+  pose proof (transfer_spec keep s b) as H. cbv zeta in H. destruct H as (_ & _ & _ & [(c & cc & _ & _ & _ & E)|(_ & E)]); rewrite E; [|reflexivity].
+  unfold add_vote, upd. cbn [cands set_cands]. apply stl_upd_same. intros c0; repeat split.
+Qed.
+Lemma stl_pb_plain keep sel bs : forall (s : est) acc, stl (cands (fst (process_ballots A (transfer A keep) sel bs s acc))) = stl (cands s).
+Proof.
+  induction bs as [|b t IH]; intros s acc; cbn [process_ballots]; [reflexivity|].
+  destruct (crashed s); [reflexivity|]. destruct (sel b); [|apply IH].
+  destruct (transfer A keep s b) as [s1 b1] eqn:E. rewrite IH. pose proof (stl_transfer keep s b) as H. rewrite E in H. exact H.
+Qed.
+Lemma stl_for_ballots_plain keep sel (s : est) : stl (cands (for_ballots A (transfer A keep) sel s)) = stl (cands s).
+Proof.
+  unfold for_ballots. pose proof (stl_pb_plain keep sel (ballots s) s []) as H.
+  destruct (process_ballots A (transfer A keep) sel (ballots s) s []) as [s1 bs1]. exact H.
+Qed.
+Lemma stl_set_vote i x (s : est) : stl (cands (set_vote A i x s)) = stl (cands s).
+Proof. unfold set_vote, upd. cbn [cands set_cands]. apply stl_upd_same. intros c0; repeat split. Qed.
+Lemma stl_tdo i (s : est) : stl (cands (transfer_defeated_one A cfg i s)) = stl (cands s).
+Proof. unfold transfer_defeated_one. cbv zeta. rewrite cands_log, stl_set_vote, stl_for_ballots_plain. reflexivity. Qed.
+
+Lemma sat_stl (s s' : est) i P : stl (cands s') = stl (cands s) -> Sat s i P -> Sat s' i P.
+Proof.
+  intros E HS c' Hc' Hi. assert (Hin: In (cid c', (cst c', cpend c')) (stl (cands s'))) by (unfold Forward.stl; apply in_map_iff; exists c'; auto).
+  rewrite E in Hin. unfold Forward.stl in Hin. apply in_map_iff in Hin. destruct Hin as (c & Ec & Hc).
+  pose proof (f_equal fst Ec) as E1. pose proof (f_equal snd Ec) as E2. cbn [fst snd] in E1, E2. rewrite <- E2. apply HS; [exact Hc|congruence].
+Qed.
+Lemma ids_stl (s s' : est) : stl (cands s') = stl (cands s) -> map (@cid A) (cands s') = map (@cid A) (cands s).
+Proof.
+  intros E. assert (H: map fst (stl (cands s')) = map fst (stl (cands s))) by (rewrite E; reflexivity).
+  unfold Forward.stl in H. rewrite !map_map in H. exact H.
+Qed.
+
+Definition isD (a : sp) : Prop := fst a = Defeated.
+
+Lemma gh_tdo i (s : est) : GH s -> crashed s = false -> In i (map (@cid A) (cands s)) -> Sat s i isD ->
+  GH (transfer_defeated_one A cfg i s) /\ crashed (transfer_defeated_one A cfg i s) = false.
+Proof.
+  intros H Hc Hi HS. destruct (find_cand_in A _ _ Hi) as [ci Ef]. destruct (find_cand_In _ _ _ Ef) as [Hin Hid].
+  pose proof (HS ci Hin Hid) as HD. unfold isD in HD. cbn in HD.
+  unfold transfer_defeated_one. cbv zeta.
+  destruct (gh_excl_one (is_hopeful A) i s ci (fun _ _ => eq_refl) H Hc) as [H2 Hc2]; try assumption.
+  - intros c Hcin Hk. split; [apply hopeful_cont; exact Hk|]. intros E.
+    pose proof (HS c Hcin E) as HD'. unfold isD in HD'. cbn in HD'. unfold is_hopeful, in_state in Hk. rewrite HD' in Hk. discriminate.
+  - rewrite HD. discriminate.
+  - unfold is_pending, in_state. rewrite HD. reflexivity.
+  - split; [apply gh_log; exact H2|rewrite crashed_log; exact Hc2].
+Qed.
+
+Lemma defeat_found i m (s : est) : In i (map (@cid A) (cands s)) ->
+  cands (defeat A cfg i m s) = upd_cand A i (fun c => with_st c Defeated (cpend c)) (cands s) /\
+  crashed (defeat A cfg i m s) = crashed s.
+Proof.
+  intros Hi. split; [apply cands_defeat; exact Hi|]. unfold defeat. destruct (find_cand_in A _ _ Hi) as [c ->]. rewrite crashed_log. reflexivity.
+Qed.
+Lemma sat_defeat_D i m (s : est) : In i (map (@cid A) (cands s)) -> Sat (defeat A cfg i m s) i isD.
+Proof.
+  intros Hi c' Hc' Hid. rewrite (proj1 (defeat_found i m s Hi)) in Hc'. destruct (in_upd_cand' _ _ _ _ Hc') as (c & Hc & [[Ei ->]|[Ei ->]]); [reflexivity|congruence].
+Qed.
+Lemma ids_defeat i m (s : est) : map (@cid A) (cands (defeat A cfg i m s)) = map (@cid A) (cands s).
+Proof. unfold defeat. destruct (find_cand A (cands s) i); [|reflexivity]. rewrite cands_log. unfold upd. cbn [cands set_cands]. apply cids_upd. reflexivity. Qed.
+Lemma sat_defeat_keepD i j m (s : est) : Sat s j isD -> Sat (defeat A cfg i m s) j isD.
+Proof.
+  intros HS c' Hc' Hid. unfold defeat in Hc'. destruct (find_cand A (cands s) i); [|exact (HS c' Hc' Hid)].
+  rewrite cands_log in Hc'. unfold upd in Hc'. cbn [cands set_cands] in Hc'.
+  destruct (in_upd_cand' _ _ _ _ Hc') as (c1 & Hc & [[Ei ->]|[Ei ->]]); [reflexivity|exact (HS c1 Hc Hid)].
+Qed.
+
+Lemma low_in_hop (s : est) lv lows c : low_candidates A s = Some (lv, lows) -> In c lows -> In c (cands s) /\ is_hopeful A c = true.
+Proof.
+  unfold low_candidates. destruct (min_vote A (hopefuls A s)); [|discriminate]. intros H Hc; inversion H; subst.
+  apply filter_In in Hc. destruct Hc as [Hc _]. unfold hopefuls in Hc. apply filter_In in Hc. exact Hc.
+Qed.
+
+Lemma gh_defeat_low bt msg (s : est) : bt_logs bt -> bt_ok A bt -> GH s -> crashed s = false ->
+  crashed (defeat_low A cfg bt msg s) = false -> GH (defeat_low A cfg bt msg s).
+Proof.
+  intros Hbl Hbo H Hc Hcf. unfold defeat_low in *.
+  destruct (low_candidates A s) as [[lv lows]|] eqn:El; [|rewrite sticky_set_crash in Hcf; discriminate].
+  destruct (bt_frame bt lows s Hbl H) as (H1 & Ec1 & Eb1 & Eq1 & Ecr1).
+  destruct (Hbo lows s) as (_ & _ & Hmem).
+  destruct (bt lows s) as [s1 [l|]] eqn:Ebt; cbn [fst snd] in *; [|exact H1].
+  destruct (Hmem l eq_refl) as (c & Hcl & Hid). destruct (low_in_hop s lv lows c El Hcl) as [Hcin Hh].
+  assert (Hi1: In l (map (@cid A) (cands s1))) by (rewrite Ec1, <- Hid; apply in_map; exact Hcin).
+  assert (Hc1: crashed s1 = false) by (rewrite Ecr1; [exact Hc|discriminate]).
+  destruct (defeat_found l msg s1 Hi1) as [Ec2 Ecr2].
+  set (s2 := defeat A cfg l msg s1) in *. rewrite Ecr2, Hc1 in *.
+  destruct (gh_tdo l s2) as [H3 _]; [apply gh_defeat; exact H1|exact Ecr2|unfold s2; rewrite ids_defeat; exact Hi1|apply sat_defeat_D; exact Hi1|exact H3].
+Qed.
+
+Lemma gh_fold_tdo (l : list cand) : forall s, GH s -> crashed s = false ->
+  (forall c, In c l -> In (cid c) (map (@cid A) (cands s)) /\ Sat s (cid c) isD) ->
+  GH (fold_left (fun s c => transfer_defeated_one A cfg (cid c) s) l s) /\
+  crashed (fold_left (fun s c => transfer_defeated_one A cfg (cid c) s) l s) = false.
+Proof.
+  induction l as [|c0 l IH]; intros s H Hc Hl; cbn [fold_left]; [split; assumption|].
+  destruct (Hl c0 (or_introl eq_refl)) as [Hi0 HS0]. destruct (gh_tdo (cid c0) s H Hc Hi0 HS0) as [H1 Hc1].
+  apply IH; [exact H1|exact Hc1|]. intros c Hcin. destruct (Hl c (or_intror Hcin)) as [Hi HS].
+  split; [rewrite (ids_stl _ _ (stl_tdo (cid c0) s)); exact Hi|exact (sat_stl _ _ _ _ (stl_tdo (cid c0) s) HS)].
+Qed.
+
+Lemma fold_defeat_facts m (l : list cand) : forall s, GH s ->
+  (forall c, In c l -> In (cid c) (map (@cid A) (cands s))) ->
+  let s' := fold_left (fun s c => defeat A cfg (cid c) m s) l s in
+  GH s' /\ crashed s' = crashed s /\ map (@cid A) (cands s') = map (@cid A) (cands s) /\
+  (forall j, Sat s j isD -> Sat s' j isD) /\ (forall c, In c l -> Sat s' (cid c) isD).
+Proof.
+  induction l as [|c0 l IH]; intros s H Hl; cbn [fold_left].
+  - split; [exact H|]. split; [reflexivity|]. split; [reflexivity|]. split; [auto|intros c []].
+  - pose proof (Hl c0 (or_introl eq_refl)) as Hi0. destruct (defeat_found (cid c0) m s Hi0) as [_ Ecr].
+    destruct (IH (defeat A cfg (cid c0) m s) (gh_defeat _ _ _ H)) as (H' & Ecr' & Eid' & Hkeep & HD).
+    { intros c Hc. rewrite ids_defeat. apply Hl. right; exact Hc. }
+    cbv zeta in *. split; [exact H'|]. split; [rewrite Ecr'; exact Ecr|]. split; [rewrite Eid'; apply ids_defeat|]. split.
+    + intros j HS. apply Hkeep. apply sat_defeat_keepD. exact HS.
+    + intros c [<-|Hc]; [apply Hkeep; apply sat_defeat_D; exact Hi0|apply HD; exact Hc].
+Qed.
+
+Lemma gh_wigm_defeat (s : est) : GH s -> crashed s = false -> crashed (wigm_defeat A cfg s) = false -> GH (wigm_defeat A cfg s).
+Proof.
+  intros H Hc Hcf. unfold wigm_defeat in *. destruct (low_candidates A s) as [[lv lows]|] eqn:El; [|rewrite sticky_set_crash in Hcf; discriminate].
+  destruct (eqv A lv (V0 A) && cf_batch_zero cfg && (seats_left A cfg s <=? nlen (hopefuls A s) - nlen lows)).
+  - assert (Hl: forall c, In c lows -> In (cid c) (map (@cid A) (cands s))) by (intros c Hcl; apply in_map; exact (proj1 (low_in_hop s lv lows c El Hcl))).
+    destruct (fold_defeat_facts "Defeat batch(zero)" lows s H Hl) as (H1 & Ecr1 & Eid1 & _ & HD). cbv zeta in *.
+    apply gh_fold_tdo; [exact H1|rewrite Ecr1; exact Hc|]. intros c Hcl. split; [rewrite Eid1; apply Hl; exact Hcl|apply HD; exact Hcl].
+  - pose proof (gh_defeat_low (bt_simple A cfg "defeat") "Defeat" s (bt_simple_logs _) (bt_simple_ok A cfg _) H Hc) as G.
+    unfold defeat_low in G. rewrite El in G. exact (G Hcf).
 Qed.
 
 End Ops.
